@@ -52,10 +52,12 @@ def exc_names(t):
     fail(t, 'exception type')
 
 
-def emit_passes(repo):
-    path = os.path.join(repo, 'bronzebeard', 'asm.py')
-    tree = ast.parse(open(path).read())
-    fns = {n.name: n for n in tree.body if isinstance(n, ast.FunctionDef)}
+PASS_FUNCTIONS = ['resolve_constants', 'resolve_labels', 'resolve_register_aliases', 'transform_compressible',
+                  'transform_pseudo_instructions', 'resolve_aligns', 'resolve_immediates', 'resolve_instructions', 'resolve_strings',
+                  'resolve_sequences', 'transform_shorthand_packs', 'resolve_packs', 'resolve_include_bytes', 'resolve_blobs']
+
+
+def extract_order(tree, fns):
     if 'assemble' not in fns:
         fail(tree, 'assemble() not found')
     body = fns['assemble'].body
@@ -98,27 +100,38 @@ def emit_passes(repo):
         order.append((pc[0], pc[1], False))
     if not order or order[-1][0] != 'resolve_blobs':
         fail(fns['assemble'], 'resolve_blobs must be the last pass')
-    # handlers of every pass function
+    return order
+
+
+def extract_handlers(fns):
+    """LENIENT: a handler is recorded iff it is exactly `except X: raise AssemblerError(msg, item.line)`; anything else is simply not a
+    conversion the model may rely on (the model then raises the raw exception there and C15's theorems break -- nothing else)."""
     handlers = []
-    for nm in dict.fromkeys(o[0] for o in order):
+    for nm in PASS_FUNCTIONS:
         if nm not in fns:
-            fail(tree, 'pass function {} not found'.format(nm))
+            continue
         for node in ast.walk(fns[nm]):
-            if isinstance(node, ast.Try):
-                if node.finalbody or node.orelse:
-                    fail(node, 'try with else/finally')
+            if isinstance(node, ast.Try) and not node.finalbody and not node.orelse:
                 for h in node.handlers:
-                    # the handler must consist of exactly: raise AssemblerError(<msg>, item.line)
                     ok = (len(h.body) == 1 and isinstance(h.body[0], ast.Raise) and call_name(h.body[0].exc) == 'AssemblerError'
                           and len(h.body[0].exc.args) == 2 and ast.unparse(h.body[0].exc.args[1]) == 'item.line')
                     if not ok:
-                        fail(h, 'handler is not `raise AssemblerError(msg, item.line)`')
+                        continue
                     calls = sorted({ast.unparse(c.func) for b in node.body for c in ast.walk(b) if isinstance(c, ast.Call)})
-                    for e in exc_names(h.type):
+                    try:
+                        names = exc_names(h.type)
+                    except TranslationError:
+                        continue
+                    for e in names:
                         handlers.append((nm, e, calls))
-    # the label updates of the size-changing passes: {k: v - D for k, v in labels.items() if v OP position} ; labels.update(..)
+    return handlers
+
+
+def extract_updates(fns):
     updates = []
-    for nm in dict.fromkeys(o[0] for o in order):
+    for nm in PASS_FUNCTIONS:
+        if nm not in fns:
+            continue
         for node in ast.walk(fns[nm]):
             if isinstance(node, ast.DictComp):
                 g = node.generators
@@ -139,8 +152,28 @@ def emit_passes(repo):
                         and isinstance(node.value.op, ast.Sub) and isinstance(node.value.left, ast.Name) and node.value.left.id == vn):
                     fail(node, 'label update must be {k: v - D ...}')
                 updates.append((nm, op, ast.unparse(node.value.right)))
-    # every such comprehension must be applied with labels.update(<that variable>)
+    return updates
+
+
+def emit_passes(repo):
+    """Each of the three tables is extracted on its own: a shape the extractor does not understand empties THAT table (and breaks the
+    theorem that speaks about it: C09 pass order, C08 label updates), it does not take the pass model down with it."""
+    path = os.path.join(repo, 'bronzebeard', 'asm.py')
+    tree = ast.parse(open(path).read())
+    fns = {n.name: n for n in tree.body if isinstance(n, ast.FunctionDef)}
+    notes = []
+    try:
+        order = extract_order(tree, fns)
+    except TranslationError as e:
+        order, _ = [], notes.append('pass_order: ' + str(e))
+    handlers = extract_handlers(fns)
+    try:
+        updates = extract_updates(fns)
+    except TranslationError as e:
+        updates, _ = [], notes.append('label_updates: ' + str(e))
     out = [HEADER.format(src='asm.py (assemble: order of the passes; exception handlers and label updates of the pass functions)')]
+    for n in notes:
+        out.append('(* NOT UNDERSTOOD, table left empty: {} *)'.format(n.replace('*)', '* )')))
     out.append('(* (pass function, further arguments after `items`, only when compress) in the order of asm.assemble *)')
     out.append('Definition pass_order : list (string * list string * bool) :=\n  [{}].\n'.format(';\n   '.join(
         '({}, [{}], {})'.format(slit(n), '; '.join(slit(a or '?') for a in args), 'true' if g else 'false') for n, args, g in order)))
